@@ -99,7 +99,7 @@ def ctor3 (frm_in to_in dataSize_in : Int) : St :=
 /-- `Range::Range(const Range &other, qint64 dataSize)` -/
 def ctorResize (o : St) (dataSize_in : Int) : St :=
     let frm : Int := o.frm
-    let to : Int := (if (((dataSize_in ≥ (0 : Int)) ∧ (o.to ≥ dataSize_in))) then (dataSize_in - (1 : Int)) else o.to)
+    let to : Int := o.to
     let dataSize : Int := dataSize_in
     { frm := frm, to := to, dataSize := dataSize }
 
